@@ -95,6 +95,22 @@ package shard
 //@   ensures [corrupted_record_aborts_only_if_not_ignored] err != nil && resultOf(err, "(*object.Object).Unmarshal") ==> !ignoreErrors
 //@   ensures [expired_or_removed_objects_do_not_abort] err != nil && resultOf(err, "(*shard.Shard).Put") ==> !expiredClass(err) && !errIs(err, apistatus.ErrObjectAlreadyRemoved)
 
+// ---- C46 (dump): a dump is taken only of a shard that accepts no writes - the read-only bit
+// of the mode is set (READ_ONLY or DEGRADED_READ_ONLY; DEGRADED alone still takes writes, and
+// what it puts into the write-cache is invisible to the cache's iterator) - and whatever the
+// write-cache iterator or the blob storage iterator reports as an error aborts the dump unless
+// the caller asked to ignore errors.
+//@ ghost pred dumpModeReadOnly() bool
+//@ callrule c46_dump_mode_bit in (*Shard).Dump
+//@   property C46
+//@   callee (mode.Mode).ReadOnly
+//@   pureeffect
+//@   defines result == dumpModeReadOnly()
+//@ callrule c46_nothing_is_dumped_from_a_writable_shard in (*Shard).Dump
+//@   property C46
+//@   callee (io.Writer).Write, (writecache.Cache).Iterate, (common.Storage).Iterate
+//@   requires [dump_only_with_the_read_only_bit_set] dumpModeReadOnly()
+
 // ---- C14: in every function of the shard, a call that changes the metabase, the blobstor
 // or the write-cache happens only on a path where the shard's mode was found writable:
 // Mode.ReadOnly() answered false, or the mode field equals ReadWrite. The mode is written only
